@@ -686,6 +686,7 @@ pub fn run_conc(case: &ConcCase, env: &mut Env, opts: &RunOpts) -> ConcRun {
         });
     }
     let _ = std::fs::remove_file(&path);
+    crate::shmutil::close_leaked_under(&env.dir);
     let s = world.0.borrow();
     let events = std::mem::take(&mut shared.borrow_mut().events);
     if std::env::var("VERIF_DEBUG").is_ok() {
